@@ -176,6 +176,9 @@ func buildPaths(h *expr.HTTPExpr, bodies map[string]map[string]*EndpointBodies, 
 			}
 
 			for _, key := range f.RequestPaths {
+				// Same workaround as for endpoints: the OpenAPI path template
+				// cannot express a catch-all wildcard.
+				key = expr.HTTPWildcardRegex.ReplaceAllString(key, "/{$1}")
 				operation := buildFileServerOperation(key, f, api)
 				path, ok := paths[key]
 				if !ok {
@@ -372,6 +375,7 @@ func buildFileServerOperation(key string, fs *expr.HTTPFileServerExpr, api *expr
 					Description: "Relative file path",
 					In:          "path",
 					Required:    true,
+					Schema:      &openapi.Schema{Type: openapi.String},
 				},
 			}
 			params = []*ParameterRef{&pref}
@@ -391,10 +395,10 @@ func buildFileServerOperation(key string, fs *expr.HTTPFileServerExpr, api *expr
 			"200": &rref,
 		}
 		if len(wildcards) > 0 {
-			desc = "File not found"
+			notFound := "File not found"
 			responses["404"] = &ResponseRef{
 				Value: &Response{
-					Description: &desc,
+					Description: &notFound,
 				},
 			}
 		}
